@@ -50,7 +50,8 @@ const (
 )
 
 type absDir struct {
-	Path    string // as configured, clean
+	Path    string // absolute and clean: where the directory is on disk
+	Rel     string // if set: the (clean) path relative to the working directory under which the directory is configured
 	State   int
 	Entries []absEntry // dirDir
 	File    *absEntry  // dirIsFile
@@ -76,6 +77,8 @@ type fsOpts struct {
 	dirFaults bool // configured paths that are files / have a non-directory ancestor, and directories turning into such
 	perm      bool // permission faults (the cache must then be used under withoutDACCaps only)
 	auto      bool // the cache under test refreshes automatically
+	relative  bool // directories may be configured relative to the working directory (the harness has moved into its scratch directory)
+	quiet     bool // the cache is observed without ever being asked to refresh (settleQuiet): only changes which produce an event
 }
 
 func (e *absEntry) term() string {
@@ -104,7 +107,15 @@ func (d *absDir) term() string {
 		}
 		st = hx.C("DDir", hx.L(items))
 	}
-	return hx.P(hx.S(d.Path), st)
+	return hx.P(hx.S(d.confPath()), st)
+}
+
+// confPath: the clean path the directory is configured under (what the cache reports paths below).
+func (d *absDir) confPath() string {
+	if d.Rel != "" {
+		return d.Rel
+	}
+	return d.Path
 }
 
 func (fs *absFS) term() string {
@@ -119,7 +130,7 @@ func (fs *absFS) term() string {
 func (fs *absFS) dirList() []string {
 	out := make([]string, len(fs.Dirs))
 	for i, d := range fs.Dirs {
-		out[i] = d.Path
+		out[i] = d.confPath()
 		if i < len(fs.Spell) && fs.Spell[i] != "" {
 			out[i] = fs.Spell[i]
 		}
@@ -162,7 +173,7 @@ func spellDir(r *hx.R, p string) string {
 func (fs *absFS) desc() interface{} {
 	var out []interface{}
 	for i, d := range fs.Dirs {
-		m := map[string]interface{}{"path": d.Path, "state": []string{"missing", "unscannable", "is-file", "dir"}[d.State]}
+		m := map[string]interface{}{"path": d.confPath(), "state": []string{"missing", "unscannable", "is-file", "dir"}[d.State]}
 		if i < len(fs.Spell) && fs.Spell[i] != "" {
 			m["configured_as"] = fs.Spell[i]
 		}
@@ -697,6 +708,10 @@ func genEntryNamed(r *hx.R, dirTag, name string, kind int, o fsOpts) *absEntry {
 				e.Invalid = "socket"
 			} else {
 				e.Invalid = hx.Pick(r, []string{"fifo", "socket"})
+				if len(name) > 6 || strings.Contains(name, "json") || strings.Contains(name, "yaml") {
+					// a FIFO only under names nobody could take for a Spec file: whoever opens one hangs
+					e.Invalid = "socket"
+				}
 			}
 		} else if o.perm && r.Chance(0.35) {
 			e.Invalid = "unreadable"
@@ -729,7 +744,7 @@ func genFileAsDir(r *hx.R, tag, base string, o fsOpts) *absEntry {
 		e = genEntry(r, tag, map[string]bool{}, o)
 	}
 	e.Name = base
-	if e.Kind == entValid && o.auto && !defectPendingLinkTargetUnwatched {
+	if e.Kind == entValid && o.auto && (!defectPendingLinkTargetUnwatched || o.quiet) {
 		// DEFECT-PENDING(link-target-unwatched): a configured path which is a link to a Spec file is watched behind the link;
 		// taking the link away is not noticed in automatic mode
 		e.ViaLink = false
@@ -801,9 +816,21 @@ func genFS(r *hx.R, root string, o fsOpts) *absFS {
 		}
 		fs.Dirs = append(fs.Dirs, d)
 	}
+	if wd, err := os.Getwd(); err == nil && o.relative {
+		// now and then a directory is configured relative to the working directory
+		for _, d := range fs.Dirs {
+			if rel, err := filepath.Rel(wd, d.Path); err == nil && !strings.HasPrefix(rel, "..") && d.Rel == "" && r.Chance(0.07) {
+				d.Rel = rel
+			}
+		}
+	}
 	fs.Spell = make([]string, len(fs.Dirs))
 	for i, d := range fs.Dirs {
-		if r.Chance(0.2) {
+		switch {
+		case d.Rel != "" && r.Chance(0.5):
+			fs.Spell[i] = "./" + d.Rel
+		case d.Rel != "":
+		case r.Chance(0.2):
 			fs.Spell[i] = spellDir(r, d.Path)
 		}
 	}
@@ -907,7 +934,9 @@ func (fs *absFS) mutate(r *hx.R, o fsOpts) string {
 			d2 = hx.Pick(r, cand)
 		}
 		var name string
-		if e.Kind == entInvalid && e.Invalid == "fifo" || r.Chance(0.25) {
+		if e.Kind == entInvalid && e.Invalid == "fifo" {
+			name = hx.Pick(r, []string{"noext", "aa", "0fifo", "b.sock", "zz"})
+		} else if r.Chance(0.25) {
 			name = pickNonSpecName(r)
 		} else {
 			name = pickSpecName(r)
@@ -939,7 +968,7 @@ func (fs *absFS) mutate(r *hx.R, o fsOpts) string {
 		i := hx.Pick(r, bad)
 		e := &d.Entries[i]
 		path := filepath.Join(d.Path, e.Name)
-		if e.Invalid == "dangling" && len(e.Name) < 200 && (!o.auto || defectPendingLinkTargetUnwatched) && r.Chance(0.7) {
+		if e.Invalid == "dangling" && len(e.Name) < 200 && (!o.auto || (defectPendingLinkTargetUnwatched && !o.quiet)) && r.Chance(0.7) {
 			// the link stays, its target appears
 			e.Kind, e.Invalid = entValid, ""
 			e.Spec = genValidSpec(r, tag+"/"+e.Name, o.rich)
@@ -1176,7 +1205,7 @@ func (fs *absFS) unwatchableDirs() []string {
 	for _, d := range fs.Dirs {
 		if (d.State == dirMissing || d.State == dirUnscannable) && !seen[d.Path] {
 			seen[d.Path] = true
-			out = append(out, d.Path)
+			out = append(out, d.confPath())
 		}
 	}
 	sort.Strings(out)
